@@ -668,6 +668,12 @@ def run_locate(case, ctx, rng):
         want = f(P)
         # general quads / hexas go through scipy.optimize.least_squares with its default 1e-8 tolerances
         tol = 1e-6 if tensor else 1e-9
+        if cls in ("edge", "node") and len(groups) == 1 and mc != "warped-faces":
+            # the optional list of candidate elements, given in no particular order
+            with ctx.monitored("location-no-exception", ckey + "/elements-argument/raised"):
+                with quiet():
+                    got_el = mesh.Evaluate_dofsValues_at_coordinates(P, dofs, rng.permutation(g.Ne))
+            ctx.check("location-values", relerr(got_el, want, scale=np.abs(vals).max()), tol, ckey + "/values@elements-given-unsorted", n=len(P), et=et)
         if mc == "warped-faces":
             # two questions, two keys: is every point (built inside an element, or on its boundary) found in some element at all,
             # and is the field right at the points that were found
